@@ -58,11 +58,12 @@ def gen(rng, tier):
 
 
 def _gen(rng, tier):
-    nv = rng.randint(1, 3)
+    big = tier == 'thorough'
+    nv = rng.randint(1, 4 if big else 3)
     vars_ = common.VARS[:nv]
     pure_past = rng.random() < 0.2
     ops = set(common.PAST_OPS if pure_past else common.BOUNDED_FUTURE_OPS)
-    cfg = sg.GenCfg(vars=vars_, ops=ops, max_depth=rng.randint(2, 5), max_bound=rng.choice([1, 2, 3, 4]),
+    cfg = sg.GenCfg(vars=vars_, ops=ops, max_depth=rng.randint(2, 6 if big else 5), max_bound=rng.choice([1, 2, 3, 4] + ([6] if big else [])),
                     p_reuse=rng.choice([0.0, 0.0, 0.2]))
     ast = sg.gen_formula(rng, cfg)
     if not pure_past and rng.random() < 0.5 and sg.horizon(ast) > 0:
@@ -73,7 +74,7 @@ def _gen(rng, tier):
     h = sg.horizon(ast)
     notation = units.gen_notation(rng)
     text = 'out = ' + sg.to_text(ast, sg.Spelling(rng), units.bounds_printer(notation, rng)) + ';'
-    n = int(h) + rng.randint(1, 10) if h != float('inf') else 5
+    n = int(h) + rng.randint(1, 16 if big else 10) if h != float('inf') else 5
     data = world.gen_trace(rng, vars_, n)
     return {'vars': vars_, 'ast': ast, 'text': text, 'n': n, 'data': data, 'notation': notation,
             'times': units.stamps(notation, n)}
@@ -159,6 +160,8 @@ def run(sc):
             break
     if units.notation_class(notation) != 'plain':
         r.probes['explicit_units'] += 1
+        r.faults['unit_notation_non_default'] += 1
+    r.faults['online_stepping'] += n
     if any(x[0] in sg.MEMORY_PAST for x in sg.walk(ast)) and has_future:
         r.probes['past_above_future'] += 1
     if any(x[0] in sg.SHIFT_FUT for x in sg.walk(ast)):
